@@ -73,8 +73,12 @@ func (ur *usageTracker) NewReport(serviceName, version, hostname string, now tim
 	if err != nil {
 		return nil, err
 	}
-	// clear the current data points and keep the last data points until we know the report was sent
-	ur.lastDataPoints = ur.currentDataPoints
+	// clear the current data points and keep everything in this report as the last data points
+	// until we know the report was sent. lastDataPoints may still hold a previous report that
+	// failed to send; it is part of this report too, so merge rather than overwrite it.
+	for signal, usage := range ur.currentDataPoints {
+		ur.lastDataPoints[signal] += usage
+	}
 	ur.currentDataPoints = make(map[usageSignal]float64)
 	return data, nil
 }
